@@ -2,7 +2,19 @@ import AFV.Driver.Proto
 namespace AFV.Driver.C16
 open Lean AFV.Proto
 
-/-- Handler for property C16 requests (stub: not implemented yet). -/
-def handle (_req : Json) : Json := err "unimplemented"
+/-- exact ≤ approx·(1+slack)  and  approx ≤ exact·(1+t)·(1+slack), over exact integers. -/
+def handle (req : Json) : Json :=
+  match (field? req "op").bind getStr? with
+  | some "within" =>
+    match (field? req "exact").bind getInt?, (field? req "approx").bind getInt?, (field? req "t_num").bind getInt?,
+          (field? req "t_den").bind getInt?, (field? req "slack_num").bind getInt?, (field? req "slack_den").bind getInt? with
+    | some e, some a, some tn, some td, some sn, some sd =>
+      if td > 0 && sd > 0 && tn ≥ 0 && sn ≥ 0 then
+        let notBelow := e * sd ≤ a * (sd + sn)
+        let within := a * td * sd ≤ e * (td + tn) * (sd + sn)
+        Json.mkObj [("notBelow", Json.bool notBelow), ("withinBound", Json.bool within)]
+      else err "malformed"
+    | _, _, _, _, _, _ => err "malformed"
+  | _ => err "bad-op"
 
 end AFV.Driver.C16
